@@ -305,10 +305,57 @@ type tf struct {
 
 var allUPCEAN = []gozxing.BarcodeFormat{gozxing.BarcodeFormat_EAN_13, gozxing.BarcodeFormat_UPC_A, gozxing.BarcodeFormat_EAN_8, gozxing.BarcodeFormat_UPC_E}
 
+var formatByName = map[string]gozxing.BarcodeFormat{"EAN_13": gozxing.BarcodeFormat_EAN_13, "UPC_A": gozxing.BarcodeFormat_UPC_A, "EAN_8": gozxing.BarcodeFormat_EAN_8, "UPC_E": gozxing.BarcodeFormat_UPC_E}
+
+func orderFormats(reader string) []gozxing.BarcodeFormat {
+	var out []gozxing.BarcodeFormat
+	for _, n := range strings.Split(strings.TrimPrefix(reader, "multi+order="), ",") {
+		out = append(out, formatByName[n])
+	}
+	return out
+}
+
+// formatOrders lists every ordered list of distinct UPC/EAN formats that contains must.
+func formatOrders(must string) []string {
+	names := []string{"EAN_13", "UPC_A", "EAN_8", "UPC_E"}
+	var out []string
+	var rec func(cur []string, used int)
+	rec = func(cur []string, used int) {
+		has := false
+		for _, c := range cur {
+			has = has || c == must
+		}
+		if has {
+			out = append(out, "multi+order="+strings.Join(cur, ","))
+		}
+		for i, n := range names {
+			if used&(1<<uint(i)) == 0 {
+				rec(append(append([]string{}, cur...), n), used|1<<uint(i))
+			}
+		}
+	}
+	rec(nil, 0)
+	return out
+}
+
 // acceptable lists the (text, format) results that satisfy the property for this reader.
 func acceptable(rc *rcase, text string) []tf {
 	sd := syms[rc.Sym]
 	own := tf{text, sd.format}
+	if strings.HasPrefix(rc.Reader, "multi+order=") {
+		hasA := strings.Contains(rc.Reader, "UPC_A")
+		switch rc.Sym {
+		case "ean13":
+			if text[0] == '0' && hasA {
+				return []tf{own, {text[1:], gozxing.BarcodeFormat_UPC_A}}
+			}
+		case "upca":
+			if strings.Contains(rc.Reader, "EAN_13") {
+				return []tf{own, {"0" + text, gozxing.BarcodeFormat_EAN_13}}
+			}
+		}
+		return []tf{own}
+	}
 	switch rc.Sym {
 	case "ean13":
 		// a 13-digit number with leading 0 and the 12-digit UPC-A number are the same symbol
@@ -359,6 +406,10 @@ func makeReader(rc *rcase) (gozxing.Reader, map[gozxing.DecodeHintType]interface
 		return oned.NewMultiFormatUPCEANReader(h), h
 	case "multi+all":
 		h := map[gozxing.DecodeHintType]interface{}{gozxing.DecodeHintType_POSSIBLE_FORMATS: allUPCEAN}
+		return oned.NewMultiFormatUPCEANReader(h), h
+	}
+	if strings.HasPrefix(rc.Reader, "multi+order=") { // POSSIBLE_FORMATS in the given ORDER
+		h := map[gozxing.DecodeHintType]interface{}{gozxing.DecodeHintType_POSSIBLE_FORMATS: orderFormats(rc.Reader)}
 		return oned.NewMultiFormatUPCEANReader(h), h
 	}
 	panic("unknown reader kind " + rc.Reader)
